@@ -538,7 +538,8 @@ fn write_tilemap_cel_to_image(
             let tile_pixels = tile_slice(pixels, &tile_size, tile_id);
             for pixel_y in 0..tile_height {
                 for pixel_x in 0..tile_width {
-                    let pixel_idx = ((pixel_y * tile_width) + pixel_x) as usize;
+                    // Note: pixel_y * tile_width can exceed the i32 range.
+                    let pixel_idx = (pixel_y as usize * tile_width as usize) + pixel_x as usize;
                     let image_pixel = tile_pixels[pixel_idx];
                     // Note: tile_x * tile_width can exceed the i32 range.
                     let image_x =
